@@ -66,7 +66,8 @@ ASSUMPTIONS = [
     "ValidationResult: only the fields the schema has (status, engine_name, log_messages, metrics) are compared; "
     "CompilerResult: problem, map_back on every ground instance, engine_name, log_messages, metrics; only "
     "compiled problems whose actions are parameterless (the schema maps action NAME -> original instance)",
-    "empty metrics dict / None log_messages are not distinguishable in proto3 and are not enumerated",
+    "empty metrics dict / None log_messages / the class of an EMPTY plan are not distinguishable in the proto3 "
+    "schema and are not enumerated",
 ]
 
 
@@ -149,8 +150,6 @@ def problem_diff(a, b):
                 return "fluents.signature"
         if {k.name: v for k, v in a.fluents_defaults.items()} != {k.name: v for k, v in b.fluents_defaults.items()}:
             return "fluents.defaults"
-        if a.explicit_initial_values != b.explicit_initial_values:
-            return "initial_values"
         if hasattr(a, "actions"):
             aa = {x.name: x for x in a.actions}
             ab = {x.name: x for x in b.actions}
@@ -196,6 +195,8 @@ def problem_diff(a, b):
                 return "sched.base_effects"
             if a.base_scoped_constraints != b.base_scoped_constraints:
                 return "sched.base_constraints"
+        if a.explicit_initial_values != b.explicit_initial_values:
+            return "initial_values"
     except Exception as e:  # diffing is best effort; the verdict does not depend on it
         return "diff-error:" + type(e).__name__
     return "unlocated"
@@ -265,7 +266,8 @@ def judge_plan(acc, plan, pb, family, label, case, level):
         acc.count("writer_rejected")
         acc.outcome("writer-rejected:%s:%s@%s" % (type(plan).__name__, type(e).__name__, _where(e)))
         return
-    if len(getattr(plan, "actions", getattr(plan, "timed_actions", [1]))) > 0:
+    steps = getattr(plan, "timed_actions", None) or getattr(plan, "actions", None)
+    if callable(steps) or steps is None or len(steps) > 0:
         acc.count("nontrivial")
     try:
         back = R.convert(msg, pb)
@@ -401,7 +403,18 @@ def build_type_case(kind, bounds, mag, pos):
 
 
 def type_cases():
-    return [(k, bd, mg, pos) for pos in TYPE_POS for k in KINDS for bd in BOUNDS for mg in MAGS if not (k == "int" and mg == "rational")]
+    out = []
+    for pos in TYPE_POS:
+        for k in KINDS:
+            for bd in BOUNDS:
+                for mg in MAGS:
+                    if k == "int" and mg == "rational":
+                        continue
+                    # a fluent parameter must have a finite, enumerable domain (Problem.__eq__ grounds all fluents)
+                    if pos == "fluent-parameter" and not (k == "int" and bd == "both" and mg in ("small", "negative")):
+                        continue
+                    out.append((k, bd, mg, pos))
+    return out
 
 
 def run_type(acc, c):
@@ -640,6 +653,239 @@ def run_durations(acc):
             judge_problem(acc, pb, "timings", label, {"family": "durations", "case": [i, holder]}, 1 + (lop or rop))
 
 
+# ------------------------------------------------------------------ family: structure sweeps
+def _htn_world():
+    env, pb, T, b, a = _mini("htn")
+    em = env.expression_manager
+    o2 = up.model.Object("o2", T, env)
+    pb.add_object(o2)
+    tk = pb.add_task("tk", x=T)
+    m = up.model.htn.Method("m", OrderedDict(x=T, y=T), env)
+    m.set_task(tk, m.parameter("x"))
+    s1 = m.add_subtask(a, m.parameter("x"), ident="s1")
+    s2 = m.add_subtask(a, m.parameter("y"), ident="s2")
+    pb.add_method(m)
+    r1 = pb.task_network.add_subtask(tk, pb.object("o1"), ident="r1")
+    r2 = pb.task_network.add_subtask(tk, o2, ident="r2")
+    return env, pb, T, b, a, tk, m, (s1, s2), (r1, r2)
+
+
+def _htn_items():
+    def ordered(w):
+        w[6].set_ordered(*w[7])
+
+    def strictly_before(w):
+        w[6].set_strictly_before(w[7][0], w[7][1])
+
+    def root_ordered(w):
+        w[1].task_network.set_ordered(*w[8])
+
+    def temporal(w):
+        em = w[0].expression_manager
+        w[6].add_constraint(em.LE(em.Plus(w[7][0].end, 2), w[7][1].start))
+
+    def temporal_root(w):
+        em = w[0].expression_manager
+        w[1].task_network.add_constraint(em.LT(w[8][0].start, em.Plus(w[8][1].end, Fraction(1, 2))))
+
+    def precondition(w):
+        w[6].add_precondition(w[0].expression_manager.Not(w[3]))
+
+    def constraint(w):
+        em = w[0].expression_manager
+        w[6].add_constraint(em.Not(em.Equals(w[6].parameter("x"), w[6].parameter("y"))))
+
+    def tn_variable(w):
+        v = w[1].task_network.add_variable("tv", w[2])
+        w[1].task_network.add_subtask(w[5], v, ident="r3")
+
+    def tn_constraint(w):
+        em = w[0].expression_manager
+        v = w[1].task_network.add_variable("tv", w[2])
+        w[1].task_network.add_subtask(w[5], v, ident="r3")
+        w[1].task_network.add_constraint(em.Or(em.Equals(v, w[1].object("o1")), em.Equals(v, w[1].object("o2"))))
+
+    def auto_ident(w):
+        w[1].task_network.add_subtask(w[5], w[1].object("o1"))
+
+    def subtask_of_task(w):
+        w[6].add_subtask(w[5], w[6].parameter("y"), ident="s3")
+
+    def second_method(w):
+        m2 = up.model.htn.Method("m2", OrderedDict(z=w[2]), w[0])
+        m2.set_task(w[5], m2.parameter("z"))
+        w[1].add_method(m2)
+
+    def durative_subtask(w):
+        d = up.model.DurativeAction("d", OrderedDict(x=w[2]), w[0])
+        d.set_closed_duration_interval(1, 3)
+        d.add_effect(EndTiming(), w[3], False)
+        w[1].add_action(d)
+        w[6].add_subtask(d, w[6].parameter("x"), ident="s3")
+
+    def timed_goal(w):
+        w[1].add_timed_goal(TimeInterval(GlobalStartTiming(1), GlobalEndTiming(), True, False), w[0].expression_manager.FluentExp(w[3]))
+
+    return OrderedDict((f.__name__, f) for f in (
+        ordered, strictly_before, root_ordered, temporal, temporal_root, precondition, constraint, tn_variable,
+        tn_constraint, auto_ident, subtask_of_task, second_method, durative_subtask, timed_goal))
+
+
+def _sched_items():
+    def world():
+        env, pb, T, b, a = _mini("sched")
+        act = pb.add_activity("act", duration=3)
+        oth = pb.add_activity("oth", duration=2, optional=True)
+        return env, pb, T, b, act, oth
+
+    def optional(w):
+        pass
+
+    def resource(w):
+        r = w[1].add_resource("res", capacity=4)
+        w[4].uses(r, 2)
+
+    def release_deadline(w):
+        w[4].add_release_date(2)
+        w[4].add_deadline(Fraction(19, 2))
+
+    def precedence(w):
+        w[1].add_constraint(w[0].expression_manager.LE(w[4].end, w[5].start), scope=[w[5].present])
+
+    def base_constraint(w):
+        em = w[0].expression_manager
+        w[1].add_constraint(em.LT(w[4].start, em.Plus(w[4].end, 1)))
+
+    def presence_constraint(w):
+        em = w[0].expression_manager
+        w[1].add_constraint(em.Or(w[5].present, em.Not(w[4].present)))
+
+    def variable_constraint(w):
+        em = w[0].expression_manager
+        v = w[1].add_variable("v", w[0].type_manager.IntType(0, 9))
+        w[1].add_constraint(em.LE(v, 4))
+        w[4].add_constraint(em.Equals(v, 3))
+
+    def activity_parameter(w):
+        k = w[4].add_parameter("k", w[0].type_manager.IntType(1, 2))
+        w[4].set_duration_bounds(k, w[0].expression_manager.Plus(k, 1))
+
+    def activity_condition(w):
+        w[4].add_condition(TimeInterval(Timing(0, w[4].start), Timing(0, w[4].end), True, False), w[0].expression_manager.Not(w[3]))
+
+    def activity_effects(w):
+        w[4].add_effect(w[4].start, w[3], True)
+        w[4].add_effect(Timing(-1, w[4].end), w[3], False)
+
+    def activity_increase(w):
+        f = up.model.Fluent("lvl", w[0].type_manager.IntType(0, 5), None, w[0])
+        w[1].add_fluent(f, default_initial_value=1)
+        w[4].add_increase_effect(w[4].end, f, 2)
+        w[5].add_decrease_effect(w[5].start, f, 1)
+
+    def base_effect(w):
+        w[1].add_effect(GlobalStartTiming(5), w[3], True)
+
+    def base_condition(w):
+        w[1].add_condition(TimeInterval(GlobalStartTiming(1), GlobalStartTiming(2), False, True), w[0].expression_manager.FluentExp(w[3]))
+
+    def makespan(w):
+        w[1].add_quality_metric(up.model.metrics.MinimizeMakespan(w[0]))
+
+    def user_type_parameter(w):
+        w[4].add_parameter("who", w[2])
+
+    fs = (optional, resource, release_deadline, precedence, base_constraint, presence_constraint, variable_constraint,
+          activity_parameter, activity_condition, activity_effects, activity_increase, base_effect, base_condition,
+          makespan, user_type_parameter)
+    return world, OrderedDict((f.__name__, f) for f in fs)
+
+
+EXPRS = None
+
+
+def _exprs():
+    """goal / precondition expressions exercising every operator and payload form"""
+    from mc.gen.uprob import b, n, m, p, q, r, c, st, I, NOT, o1, o2, s1, vT, vS, VT, VS
+
+    X = ("p", "x")
+    return [
+        ("iff", b, p(o1)), ("implies", b, p(o1)), ("and",), ("or",), ("and", b), ("or", b, p(o1), p(o2)),
+        ("not", ("not", b)), ("eq", o1, o2), ("eq", r(o1), r(o2)), ("lt", n, I(2)), ("le", I(-1), n),
+        ("eq", ("+", n, I(1), c(o1)), I(3)), ("eq", ("-", n, c(o1)), I(0)), ("eq", ("*", n, I(2), c(o2)), I(0)),
+        ("le", ("/", m, I(2)), ("r", 3, 4)), ("le", ("/", I(1), I(3)), m), ("eq", ("+", n), I(1)), ("le", ("r", -5, 3), m),
+        ("exists", (("v", "T"), ("w", "S")), ("and", p(vT), q(vS))),
+        ("forall", (("v", "T"),), ("exists", (("w", "S"),), ("or", p(vT), q(vS)))),
+        ("exists", (("v", "S"),), q(("v", "v", "S"))),
+        ("and", ("exists", VT, p(vT)), ("forall", (("v", "S"),), q(("v", "v", "S")))),
+        ("eq", r(r(o1)), o2), p(r(o1)), ("b", True), ("b", False), ("le", I(0), I(1)),
+    ]
+
+
+def run_structs(acc):
+    items = _htn_items()
+    for nm, fn in items.items():
+        w = _htn_world()
+        try:
+            fn(w)
+        except Exception as e:
+            acc.count("skipped_rejected_at_build")
+            acc.outcome("build-rejected:htn:%s:%s" % (nm, type(e).__name__))
+            continue
+        judge_problem(acc, w[1], "structs", "htn/" + nm, {"family": "structs"}, 2)
+    judge_problem(acc, _htn_world()[1], "structs", "htn/base", {"family": "structs"}, 1)
+    world, sitems = _sched_items()
+    for nm, fn in sitems.items():
+        w = world()
+        try:
+            fn(w)
+        except Exception as e:
+            acc.count("skipped_rejected_at_build")
+            acc.outcome("build-rejected:sched:%s:%s" % (nm, type(e).__name__))
+            continue
+        judge_problem(acc, w[1], "structs", "sched/" + nm, {"family": "structs"}, 2)
+    for i, ex in enumerate(_exprs()):
+        for where in ("goal", "precondition", "effect-condition", "invariant"):
+            ps = uprob.make({})
+            if where == "goal":
+                ps["goals"] = (ex,)
+            elif where == "invariant":
+                ps["traj"] = (("always", ex),)
+            else:
+                acts = list(ps["actions"])
+                a2 = dict(acts[1])
+                if where == "precondition":
+                    a2["pre"] = (ex,)
+                else:
+                    a2["eff"] = ((("assign", uprob.b, uprob.TRUE, ex, ())),)
+                acts[1] = a2
+                ps["actions"] = tuple(acts)
+            try:
+                pb, _ = gp.build_problem(ps)
+            except Exception as e:
+                acc.count("skipped_rejected_at_build")
+                acc.outcome("build-rejected:expr:%s" % type(e).__name__)
+                continue
+            if any(tc.is_constant() for tc in pb.trajectory_constraints):
+                # Always(<constant>) is stored simplified to a bare constant, which the model's own
+                # add_trajectory_constraint refuses: not a protobuf matter
+                acc.count("skipped_degenerate_invariant")
+                continue
+            judge_problem(acc, pb, "structs", "expr/%s/%d" % (where, i), {"family": "structs"}, 2)
+    # plan parameters of every constant kind
+    env, pb, T, b, a = _mini()
+    tm, em = env.type_manager, env.expression_manager
+    a5 = up.model.InstantaneousAction("a5", OrderedDict(f=tm.BoolType(), i=tm.IntType(0, 3), t=tm.RealType(), x=T), env)
+    a5.add_effect(b, True)
+    pb.add_action(a5)
+    o1_ = em.ObjectExp(pb.object("o1"))
+    for f_ in (em.TRUE(), em.FALSE()):
+        for i_ in (em.Int(0), em.Int(3)):
+            for t_ in (em.Real(Fraction(1, 2)), em.Int(2), em.Real(Fraction(-7, 3))):
+                ai = up.plans.ActionInstance(a5, (f_, i_, t_, o1_))
+                judge_plan(acc, up.plans.SequentialPlan([ai], env), pb, "structs", "plan-params/%s/%s/%s" % (f_, i_, t_), {"family": "structs"}, 2)
+
+
 # ------------------------------------------------------------------ family: plans
 def _plan_world():
     ps = uprob.make({})
@@ -677,7 +923,8 @@ TT_DURS = [Fraction(1), Fraction(3, 2), Fraction(2)]
 def run_plans(acc, which, part, nparts):
     if which == "sequential":
         pb, env, gas = _plan_world()
-        seqs = [()] + [(i,) for i in range(len(gas))] + [(i, j) for i in range(len(gas)) for j in range(len(gas))]
+        # the empty plan is not enumerated: a Plan message without actions does not say which class it had
+        seqs = [(i,) for i in range(len(gas))] + [(i, j) for i in range(len(gas)) for j in range(len(gas))]
         for n_, s in enumerate(seqs):
             if n_ % nparts != part:
                 continue
@@ -706,12 +953,12 @@ def run_plans(acc, which, part, nparts):
 
         singles = [(k, st, du) for k in range(len(steps)) for st in range(len(TT_STARTS)) for du in range(len(TT_DURS))
                    if du == 0 or isinstance(steps[k][0], up.model.DurativeAction)]
-        plans = [()] + [(s,) for s in singles] + [(s, t) for s in singles for t in singles if s <= t]
+        plans = [(s,) for s in singles] + [(s, t) for s in singles for t in singles if s <= t]
         for n_, pl in enumerate(plans):
             if n_ % nparts != part:
                 continue
             plan = up.plans.TimeTriggeredPlan([inst(*s) for s in pl], env)
-            judge_plan(acc, plan, pb, "plans", "tt/" + "|".join("%d.%d.%d" % s for s in pl), {"family": "plans", "which": which, "tt": [list(s) for s in pl]}, len(pl))
+            judge_plan(acc, plan, pb, "plans", "tt/" + "+".join("%d.%d.%d" % s for s in pl), {"family": "plans", "which": which, "tt": [list(s) for s in pl]}, len(pl))
 
 
 # ------------------------------------------------------------------ family: results
@@ -973,6 +1220,7 @@ def shards(tier, seed):
         {"level": 0, "family": "timings", "part": 1},
         {"level": 0, "family": "validation-results"},
         {"level": 0, "family": "corpus"},
+        {"level": 0, "family": "structs"},
     ]
     for w_, k in (("sequential", 2), ("partial-order", 1), ("time-triggered", 6 if tier == "quick" else 6)):
         for i in range(k):
@@ -1013,6 +1261,8 @@ def run_shard(shard, tier, seed):
         run_validation_results(acc)
     elif fam == "corpus":
         run_corpus(acc)
+    elif fam == "structs":
+        run_structs(acc)
     elif fam == "compiler-results":
         for cid in shard["cids"]:
             run_compiler_results(acc, tuple(tuple(x) for x in cid), len(cid))
@@ -1044,6 +1294,8 @@ def replay(case):
         run_compiler_results(acc, cid, len(cid))
     elif fam == "corpus":
         run_corpus(acc, only=case["name"])
+    elif fam == "structs":
+        run_structs(acc)
     elif fam == "corpus-mutation":
         examples()
         run_mutation(acc, case["name"], *case["mut"])
